@@ -661,6 +661,15 @@ func (s *Stream) ProcessSync(data map[string]any) (map[string]any, error) {
 func (s *Stream) enrichData(data map[string]any) (dataMap map[string]any, keep bool, err error) {
 	dataMap = data
 	if !s.hasJoin() {
+		// Analytic results / WHERE placeholders and computed GROUP BY keys are
+		// injected into the working row. Never write them into the map the caller
+		// handed to Emit/EmitSync: work on a shallow copy in those cases.
+		if s.injectsIntoRow() {
+			dataMap = make(map[string]any, len(data)+4)
+			for k, v := range data {
+				dataMap[k] = v
+			}
+		}
 		return dataMap, true, nil
 	}
 	wm, k, jerr := s.enrichJoin(data)
@@ -671,6 +680,20 @@ func (s *Stream) enrichData(data map[string]any) (dataMap map[string]any, keep b
 		return dataMap, false, nil // INNER JOIN 无匹配：丢弃
 	}
 	return wm, true, nil
+}
+
+// injectsIntoRow reports whether processing writes derived values into the
+// working row (analytic fields, WHERE analytic placeholders, function GROUP BY keys).
+func (s *Stream) injectsIntoRow() bool {
+	if len(s.config.AnalyticFields) > 0 || len(s.config.WhereAnalyticCalls) > 0 {
+		return true
+	}
+	for _, gf := range s.config.GroupFields {
+		if strings.Contains(gf, "(") {
+			return true
+		}
+	}
+	return false
 }
 
 // applyWhereAndAnalytic 按 WHERE 是否引用分析函数决定求值序，并应用 WHERE 过滤。
